@@ -166,7 +166,7 @@ def run(cx):
                 lambda p: p.kind == 'eq' and sorted([cn.c(p.args[0]), cn.c(p.args[1])]) == ['0', 'Rem(len($data), 16)'], True,
                 'CBC ciphertext length must be a multiple of 16')
         idx = [b for b in FR.calls_of(fn, 'index') if FR.arg_canon(fn, P, cn, b, 1) == 'SubWithOverflow(len($data), 1).0']
-        G.range_guard(cx, 'L-CBC-LEN', 'cbc_decrypt/positive', fn, P, idx or sinks, lambda e: cn.c(norm(e)) == 'len($data)', 1, 1 << 64,
+        G.range_guard(cx, 'L-CBC-LEN', 'cbc_decrypt/positive', fn, P, idx or sinks, lambda e: cn.c(norm(e)) == 'len($data)', 1, 1 << 300,
                       'CBC ciphertext must not be empty before its last byte is read')
         # padding byte range
         lastb = None
